@@ -456,4 +456,17 @@ section .text
 		db 0x%3, 0x%2
 %endmacro
 
+%ifdef ISAL_CRYPTO_VERIF
+; Verification hook (off by default): route CPU feature queries through
+; harness-provided stubs that keep the register contract of the instructions.
+extern isal_verif_cpuid
+extern isal_verif_xgetbv
+%macro cpuid 0
+	call	isal_verif_cpuid
+%endmacro
+%macro xgetbv 0
+	call	isal_verif_xgetbv
+%endmacro
+%endif ; ISAL_CRYPTO_VERIF
+
 %endif ; ifndef _REG_SIZES_ASM_
